@@ -2,8 +2,13 @@
    every map Flush can report ([Reported]), for every mask, conversion mode and batch size >= 1. *)
 From Coq Require Import String.
 From Coq Require Import List ZArith Lia Bool.
-From GS Require Import Base.Bytes Model.GoPartial Model.Histogram Model.Stats Model.FlushPartial
-  Model.PayloadPartial Proofs.FlushSafety.
+From GS Require Import Base.Bytes.
+From GS Require Import Model.GoPartial.
+From GS Require Import Model.Histogram.
+From GS Require Import Model.Stats.
+From GS Require Import Model.FlushPartial.
+From GS Require Import Model.PayloadPartial.
+From GS Require Import Proofs.FlushSafety.
 Import ListNotations.
 Local Open Scope Z_scope.
 
